@@ -98,6 +98,24 @@ def akai_payload3():
     return A.build_akai(A.model_from_spec({"parts": parts}))[0]
 
 
+def akai_payload4():
+    """a DAMAGED image: the second volume's entry points to a start sector outside the allocation table, so that volume
+    cannot be realised; requests that touch it fail -- and must fail the same way whatever happened before"""
+    import struct
+    spec = {"parts": [{"vols": [
+        {"name": "GOOD", "dir": [3], "files": [{"name": "SMP", "n": 300, "chain": [4], "seq": 1}, {"name": "TWO", "n": 200, "chain": [5], "seq": 2}]},
+        {"name": "BAD", "dir": [6], "files": [{"name": "LOST", "n": 100, "chain": [7], "seq": 3}]},
+        {"name": "LAST", "dir": [8], "files": [{"name": "END", "n": 150, "chain": [9], "seq": 4}]}]}]}
+    img, layout = A.build_akai(A.model_from_spec(spec))
+    b = bytearray(img)
+    struct.pack_into("<H", b, layout["p0.vol1.entry"][0] + 14, 0x3000)
+    return bytes(b)
+
+
+def akai4_paths():
+    return ["", "A:", "A:/GOOD", "A:/BAD", "A:/LAST", "A:/GOOD/SMP", "A:/BAD/LOST", "A:/LAST/END", "A:/BAD/x", "nope"]
+
+
 def discover_paths(fmt, depth=3):
     """every path reachable through the listings of a fresh object (breadth first), plus three invalid ones"""
     from mcv.checks.c10 import parse_table
@@ -172,7 +190,7 @@ _PAY = {}
 
 def payload(fmt):
     if fmt not in _PAY:
-        _PAY[fmt] = {"akai": akai_payload, "roland": roland_payload, "akai2": akai_payload2, "akai3": akai_payload3}[fmt]()
+        _PAY[fmt] = {"akai": akai_payload, "roland": roland_payload, "akai2": akai_payload2, "akai3": akai_payload3, "akai4": akai_payload4}[fmt]()
     return _PAY[fmt]
 
 
@@ -221,19 +239,21 @@ class Subject:
         base = self.fmt.replace("_file", "").replace("akai2", "akai")
         if self.paths is not None:
             paths = self.paths
+        elif base == "akai4":
+            paths = akai4_paths()
         else:
             paths = {"akai": akai_paths, "roland": roland_paths, "cdda": cdda_paths}[base]()
         return [["ls", p] for p in paths] + [["export"], ["export_same"]]
 
     def fresh(self):
-        if self.fmt in ("akai", "roland", "akai2", "akai3"):
+        if self.fmt in ("akai", "roland", "akai2", "akai3", "akai4"):
             self.bio = io.BytesIO(payload(self.fmt))
             from smpl_extract.actions import determine_image_type
             return determine_image_type(self.bio)
         return tree.open_image(self.path)
 
     def unchanged(self):
-        if self.fmt in ("akai", "roland", "akai2", "akai3"):
+        if self.fmt in ("akai", "roland", "akai2", "akai3", "akai4"):
             return self.bio.getvalue() == payload(self.fmt)
         if self.fmt == "cdda":
             with open(os.path.join(self.scratch, "disc.bin"), "rb") as f:
@@ -242,6 +262,15 @@ class Subject:
             return f.read() == payload(self.fmt[:-5])
 
     def apply(self, img, op):
+        if self.fmt == "akai4":
+            # on the damaged image a request may fail: then HOW it fails is the observable
+            try:
+                return self._apply(img, op)
+            except Exception as e:  # noqa
+                return ("raised", op[0], type(e).__name__)
+        return self._apply(img, op)
+
+    def _apply(self, img, op):
         if op[0] == "ls":
             return ("ls", tree.ls(img, op[1]))
         self.n += 1
@@ -272,7 +301,7 @@ class Check(CheckBase):
     title = "Results depend only on the image bytes, not on what was looked at before"
     rule = ("per image (AKAI: 2 partitions x 2 volumes, L/R pair, fragmented chains, a program, a file filling its last "
             "sector; Roland: 2 volumes + orphan performance, shared sample, reverse mode, start point > 0, two samples in one cluster chain reached through different performances, L/R pair; CDDA: duplicate and missing "
-            "titles; AKAI and Roland again as read-only real files; a third AKAI image whose names are sanitised differently by role "
+            "titles; AKAI and Roland again as read-only real files; a DAMAGED AKAI image (one volume cannot be realised: requests touching it fail, and must fail the same way under every history); a third AKAI image whose names are sanitised differently by role "
             "(ending in '-' / '.', '+'), where one raw name is a volume in one partition and a sample in another and where two "
             "sibling volumes (and two sibling files) carry the same stored name, paths discovered through its own listings) the alphabet is ls(p) for every node path p, three invalid "
             "paths, export into a fresh directory, and export into one fixed directory (so that a repeated export writes over "
@@ -287,14 +316,14 @@ class Check(CheckBase):
     def shards(self):
         out = []
         self._base = {}
-        for fmt in ("akai", "roland", "cdda", "akai2", "akai3"):
+        for fmt in ("akai", "roland", "cdda", "akai2", "akai3", "akai4"):
             self._base[fmt] = pristine_baseline(fmt)
         # cross-image histories: one operation on image A, then one on image B (same names, other bytes) in the same process
         with scratch_dir("c16s") as d:
             nops = len(Subject("akai", d).ops())
         for first in range(nops):
             out.append({"fmt": "akai_cross", "first": first, "baseline": self._base["akai2"]})
-        for fmt in ("akai", "roland", "cdda", "akai_file", "roland_file", "akai3"):
+        for fmt in ("akai", "roland", "cdda", "akai_file", "roland_file", "akai3", "akai4"):
             with scratch_dir("c16s") as d:
                 nops = len(Subject(fmt, d, self._base.get(fmt, {}).get("__paths__")).ops())
             base = fmt.replace("_file", "")
@@ -392,7 +421,9 @@ class Check(CheckBase):
                      sig=f"{subj.fmt}:" + ("raised:" + exc_sig(got) if st == "exc" else "hang"), detail={"observed": repr(got)[:200]})
             return
         if tuple(got) != tuple(want):
-            if got[0] == "export":
+            if got[0] == "raised" or want[0] == "raised":
+                d = {"fresh": repr(want)[:200], "observed": repr(got)[:200]}
+            elif got[0] == "export":
                 d = {"fresh_files": want[2][:6], "files": got[2][:6], "same_paths": want[2] == got[2], "same_stdout": want[1] == got[1],
                      "same_bytes": want[3] == got[3]}
             else:
